@@ -95,24 +95,38 @@ theorem new_refused_no_leak (c : HCfg) (cap : Nat) (tr : Triple) (m : Mem) (h : 
     (HashTable.new c cap tr m).2.2.fault = m.fault :=
   ⟨((HashTable.new_spec c cap tr m).2.1 h).1, ((HashTable.new_spec c cap tr m).2.1 h).2, (HashTable.new_spec c cap tr m).2.2.2.1⟩
 
-/-- `get_keys`/`get_values`: no fault; the ledger grows by the two blocks of the returned array or
-not at all -/
-theorem enumeration_nofault_ledger (c : HCfg) (t : HashTable) (m : Mem) (h : t.Inv c) (hpos : 0 < t.size)
+/-- `get_keys`/`get_values` on any table, empty or not: no fault; the ledger grows by the two blocks of
+the returned array or not at all (an empty table is rejected before anything is allocated).  `hbig` is
+`cc_array_new_conf`'s own byte-size guard, true in every address space. -/
+theorem enumeration_nofault_ledger (c : HCfg) (t : HashTable) (m : Mem) (h : t.Inv c)
     (hbig : 8 * t.size ≤ Gen.CC_MAX_ELEMENTS) :
     (t.getKeys c m).2.2.fault = m.fault ∧ (t.getValues c m).2.2.fault = m.fault ∧
     ((t.getKeys c m).2.1 = none → liveOf (t.getKeys c m).2.2 t.triple = liveOf m t.triple) ∧
-    (∀ a, (t.getKeys c m).2.1 = some a → liveOf (t.getKeys c m).2.2 t.triple = liveOf m t.triple + 2) := by
+    (∀ a, (t.getKeys c m).2.1 = some a → liveOf (t.getKeys c m).2.2 t.triple = liveOf m t.triple + 2) ∧
+    ((t.getValues c m).2.1 = none → liveOf (t.getValues c m).2.2 t.triple = liveOf m t.triple) ∧
+    (∀ a, (t.getValues c m).2.1 = some a → liveOf (t.getValues c m).2.2 t.triple = liveOf m t.triple + 2) := by
+  by_cases h0 : t.size = 0
+  · obtain ⟨e1, e2⟩ := C02.enumeration_empty c t m h h0
+    rw [e1, e2]
+    refine ⟨rfl, rfl, fun _ => rfl, ?_, fun _ => rfl, ?_⟩ <;> intro a ha <;> simp at ha
+  have hpos : 0 < t.size := by omega
   have hw := HashTable.walk_eq t h.2.1
   have hsz := h.2.2.1
   have k := (HashTable.collect_spec c t (t.walk.map (fun e => encKey e.key)) m h (by rw [hw, List.length_map]; omega) hbig).2 hpos
   have v := (HashTable.collect_spec c t (t.walk.map (·.value)) m h (by rw [hw, List.length_map]; omega) hbig).2 hpos
-  refine ⟨k.2.2.2.1, v.2.2.2.1, ?_, fun a ha => (k.2.2.1 a ha).2.2.2.2.1⟩
-  intro hn
-  apply (k.2.1 ?_).2
-  intro hok
-  have := (HashTable.collect_ok_iff c t (t.walk.map (fun e => encKey e.key)) m).mp hok
-  unfold HashTable.getKeys at hn
-  rw [hn] at this; cases this
+  refine ⟨k.2.2.2.1, v.2.2.2.1, ?_, fun a ha => (k.2.2.1 a ha).2.2.2.2.1, ?_, fun a ha => (v.2.2.1 a ha).2.2.2.2.1⟩
+  · intro hn
+    apply (k.2.1 ?_).2
+    intro hok
+    have := (HashTable.collect_ok_iff c t (t.walk.map (fun e => encKey e.key)) m).mp hok
+    unfold HashTable.getKeys at hn
+    rw [hn] at this; cases this
+  · intro hn
+    apply (v.2.1 ?_).2
+    intro hok
+    have := (HashTable.collect_ok_iff c t (t.walk.map (·.value)) m).mp hok
+    unfold HashTable.getValues at hn
+    rw [hn] at this; cases this
 
 /-- iterator programs (any sequence of `next`/`remove`): no fault, and the ledger shrinks by
 exactly the removed entries -/
